@@ -25,6 +25,7 @@ import (
 	"os"
 	"os/exec"
 	"path/filepath"
+	"runtime"
 	"strconv"
 	"sync"
 	"sync/atomic"
@@ -203,9 +204,13 @@ type killSpec struct {
 	Spec    sweepSpec `json:"structure"`
 	Variant bool      `json:"variant"`
 	KillAt  int       `json:"kill_before_write"`
+	// KillAtRename > 0: the child runs under strace and is killed when it makes its N-th rename(2) call, i.e. INSIDE a
+	// storage write, after the new content was written somewhere and before it is in place (KillAt is 0 then)
+	KillAtRename int `json:"kill_at_rename,omitempty"`
 }
 
 func killChildMain(arg string) {
+	runtime.LockOSThread() // (strace counts system calls per thread)
 	var ks killSpec
 	b, err := os.ReadFile(arg)
 	if err == nil {
@@ -244,12 +249,16 @@ func killedStart(ks killSpec, tag string) string {
 	ctx, cancel := context.WithTimeout(context.Background(), 2*time.Minute)
 	defer cancel()
 	cmd := exec.CommandContext(ctx, bin, "-killchild", f)
+	if ks.KillAtRename > 0 {
+		calls := "rename,renameat,renameat2"
+		cmd = exec.CommandContext(ctx, "strace", "-f", "-qq", "-o", "/dev/null", "-e", "trace="+calls, "-e", fmt.Sprintf("inject=%s:signal=SIGKILL:when=%d", calls, ks.KillAtRename), bin, "-killchild", f)
+	}
 	out, err := cmd.CombinedOutput()
 	if err == nil {
 		return "completed"
 	}
 	if ee, ok := err.(*exec.ExitError); ok {
-		if ws, ok := ee.Sys().(syscall.WaitStatus); ok && ws.Signaled() && ws.Signal() == syscall.SIGKILL && ctx.Err() == nil {
+		if ws, ok := ee.Sys().(syscall.WaitStatus); ok && ctx.Err() == nil && ((ws.Signaled() && ws.Signal() == syscall.SIGKILL) || (ks.KillAtRename > 0 && ws.ExitStatus() == 137)) {
 			return "killed"
 		}
 	}
@@ -275,17 +284,21 @@ func killedStarts(r *vf.Run) {
 		changed bool
 		killAt  int
 		first   bool // the very FIRST start on an empty directory is the one that is killed
+		rename  bool // killAt counts rename(2) calls (a kill inside a storage write) instead of storage writes
 	}
 	var jobs []job
 	for i := 0; i < n; i++ {
 		s := sweepSpec{N: i, Desc: fmt.Sprintf("kill %d/%d", salt, i), Extra: i % 3, Kind: i}
 		for k := 1; k <= 4; k++ {
-			jobs = append(jobs, job{s, true, k, false})
+			jobs = append(jobs, job{s, true, k, false, false})
 			if i%4 == 0 {
-				jobs = append(jobs, job{s, false, k, false})
+				jobs = append(jobs, job{s, false, k, false, false})
 			}
 			if i%4 == 1 {
-				jobs = append(jobs, job{s, false, k, true})
+				jobs = append(jobs, job{s, false, k, true, false})
+			}
+			if i%4 == 2 && k <= 3 {
+				jobs = append(jobs, job{s, true, k, false, true})
 			}
 		}
 	}
@@ -367,8 +380,13 @@ func killedStarts(r *vf.Run) {
 					if perr != nil {
 						return // reported by the sweep
 					}
-					how := killedStart(killSpec{Dir: dir, Spec: j.s, Variant: j.changed, KillAt: j.killAt}, fmt.Sprint(ji))
-					hist = append(hist, fmt.Sprintf("start with %s killed before write %d: %s; files now: version=%q configHash=%x", map[bool]string{true: "S'", false: "S"}[j.changed], j.killAt, how, readFile(dir, "version"), readFile(dir, "configHash")))
+					ksp := killSpec{Dir: dir, Spec: j.s, Variant: j.changed, KillAt: j.killAt}
+					if j.rename {
+						ksp.KillAt, ksp.KillAtRename = 0, j.killAt
+						r.Count("starts_killed_inside_a_storage_write(at a rename)", 1)
+					}
+					how := killedStart(ksp, fmt.Sprint(ji))
+					hist = append(hist, fmt.Sprintf("start with %s killed before write %d (counting rename calls: %v): %s; files now: version=%q configHash=%x", map[bool]string{true: "S'", false: "S"}[j.changed], j.killAt, j.rename, how, readFile(dir, "version"), readFile(dir, "configHash")))
 					switch how {
 					case "killed":
 						r.Count("killed_starts", 1)
